@@ -8,6 +8,10 @@ import (
 
 	"polysim/cli"
 	_ "polysim/engines/btcsel"
+	"polysim/engines/lc"
 )
+
+// the router-generic checks (C19, C20) over this engine's driver/depositor only
+func init() { lc.Finalize() }
 
 func TestSim(t *testing.T) { cli.Main(t) }
